@@ -52,6 +52,14 @@ CHECKS = {
         text="For 12 configurations (max_pool_size 1/2/unbounded x ignore_exc x pool_idle_timeout 0/10) the reachable canonical pool states are enumerated to a fixpoint; from every state every operation of the alphabet is executed on the real code under no fault and under every single (thorough: double) deviation at any of its socket calls, plus slow replies and clock advances around the idle timeout. Every transition is checked: nothing stays checked out, the sockets of a failed inner call are closed, a healthy idle connection within the timeout is reused without reconnecting, an expired one is closed and never reused, no 'Too many objects'.",
         note=TB + "Sequential use only (C08 covers concurrent checkouts); 'failed call' = an exception left the inner Client method (observed through the client_class seam).",
     ),
+    "C20": dict(
+        engine="input-enumerator",
+        level="exploration",
+        technique="bounded-exhaustive enumeration of keys x prefixes x flags through every validation entry point, compared with an independent legality predicate",
+        design_ref="DESIGN.md section 3 / C20",
+        text="All str and bytes keys of length <=2 over the full 256-value alphabet (quick: <=1 full, 2 and 3 over a 16-class projection), every byte at every position of 249/250/251-byte keys, byte lengths around the limit for 1-4 byte UTF-8 characters, x 8 prefixes (lengths 0,1,3,125,249,250, two containing separators) x allow_unicode_keys, through check_key_helper, Client.check_key, PooledClient.check_key and the get() path of Client, PooledClient and HashClient; accepted iff the independent predicate says legal, returned/transmitted form == prefix+encoded key, rejection is MemcacheIllegalInputError and happens before anything is written.",
+        note="Trusted: the predicate in vmc/keyspace.py (written from the property statement). Keys whose prefixed form is empty are outside the statement; longer keys are covered by structured families, not exhaustively.",
+    ),
 }
 
 PENDING = "check not built yet in this session; planned engine and oracle are in DESIGN.md section 3"
